@@ -552,10 +552,40 @@ Definition eff_compat (need_zero_consts : bool) (e : effect) (c : fxcell) : bool
   | Det | Any => true
   end.
 
+(* the struct field that plays the role a model field is named after: Gen/FieldFx.v lists (role, current name); the
+   roles are found from the types and uses of the fields (tools/gotables/roles.go), the depth counter by the C02
+   recogniser.  A role the list does not mention keeps its own name. *)
+Definition role_name {field} (roles : list (String.string * String.string)) (fname : field -> String.string)
+  (f : field) : String.string :=
+  match assoc (fname f) roles with Some n => n | None => fname f end.
+
+Fixpoint str_mem (x : String.string) (l : list String.string) : bool :=
+  match l with [] => false | y :: r => String.eqb x y || str_mem x r end.
+Fixpoint str_nodup (l : list String.string) : bool :=
+  match l with [] => true | x :: r => negb (str_mem x r) && str_nodup r end.
+
+(* the footprint a regenerated cell stands for: class 0 none / 1 balanced: Keep; 2 must: Zero when every store stores the
+   zero value, otherwise Det (the stored value is a function of the input and of the incoming values the method reads,
+   which the reads column over-approximates); 3 zero-or-keep: KZ; 4 may: no claim *)
+Definition eff_of_cell (c : fxcell) : effect :=
+  let '(_, (cls, az)) := c in
+  match cls with
+  | 0 | 1 => Keep
+  | 2 => if az then Zero else Det
+  | 3 => KZ
+  | _ => Any
+  end.
+Definition eff_join (a b : effect) : effect :=
+  if effect_eqb a b then a else
+  match a, b with
+  | (Keep | Zero | KZ), (Keep | Zero | KZ) => KZ
+  | _, _ => Any
+  end.
+
 Section Compat.
   Variables field op : Type.
   Variable T : footprint field op.
-  Variable fname : field -> String.string.
+  Variable fname : field -> String.string.              (* current name of the struct field a model field stands for *)
   Variable methods : op -> list String.string.          (* the Go methods an operation of the model stands for *)
   Variable guard_r guard_w : op -> field -> bool.       (* hand-justified cells (listed in design/C08.md) *)
   Variable need_zero_consts : bool.                     (* a new instance is the Go zero value *)
@@ -574,23 +604,59 @@ Section Compat.
     end.
   Definition known_method (m : String.string) : bool :=
     existsb (fun o => existsb (String.eqb m) (methods o)) (fp_ops T).
+
+  (* ---- struct fields no model field stands for (a field added to the struct): the model needs no column for such a
+          field when the footprint table EXTENDED by the field's regenerated column still satisfies the generic
+          read-before-write condition [table_ok] (the hypothesis of C08_no_carry_over_any_implementation): the field is
+          dead on entry of every method, or it is well behaved (work keeps it, every boundary operation zeroes it) ---- *)
+  Definition model_names : list String.string := map fname (fp_fields T).
+  Definition extras : list String.string := filter (fun n => negb (str_mem n model_names)) gen_fields.
+  Definition xcells (o : op) (e : String.string) : list (option fxcell) :=
+    map (fun m => match assoc m gen with Some row => assoc e row | None => None end) (methods o).
+  Definition xreads (o : op) (e : String.string) : bool :=
+    existsb (fun c => match c with Some c => fst c | None => true end) (xcells o e).
+  Definition xeff (o : op) (e : String.string) : effect :=
+    match xcells o e with
+    | [] => Any
+    | c :: r => fold_left (fun a c => eff_join a (match c with Some c => eff_of_cell c | None => Any end)) r
+                          (match c with Some c => eff_of_cell c | None => Any end)
+    end.
+  Definition ext_table : footprint (field + String.string) op :=
+    mkFP (map inl (fp_fields T) ++ map inr extras) (fp_ops T) (fp_kind T)
+         (fun o f => match f with inl f => fp_reads T o f | inr e => xreads o e end)
+         (fun o f => match f with inl f => fp_eff T o f | inr e => xeff o e end).
+  Definition extras_ok : bool :=
+    forallb (fun e => implb (live ext_table (inr e)) (wb ext_table (inr e))) extras.
+
   (* an exported method the model has no operation for must be a getter of well-behaved fields *)
   Definition getter_ok (row : fxrow) : bool :=
     forallb (fun f => match assoc (fname f) (snd row) with
                       | None => false
                       | Some (r, (cls, _)) => (cls =? 0) && implb r (wb T f)
-                      end) (fp_fields T).
+                      end) (fp_fields T) &&
+    forallb (fun e => match assoc e (snd row) with
+                      | None => false
+                      | Some (r, (cls, _)) => (cls =? 0) && implb r (wb ext_table (inr e))
+                      end) extras.
+  (* every model field is played by exactly one struct field; the struct's other fields pass [extras_ok] *)
+  Definition names_ok : bool :=
+    str_nodup model_names && forallb (fun n => str_mem n gen_fields) model_names && str_nodup gen_fields.
   Definition fx_compat : bool :=
-    strs_eqb (map fname (fp_fields T)) gen_fields &&
+    names_ok && extras_ok &&
     forallb (fun o => forallb (fun m => forallb (cell_compat o m) (fp_fields T)) (methods o)) (fp_ops T) &&
     forallb (fun row => known_method (fst row) || getter_ok row) gen.
-  (* diagnostics: the (method, field) cells that are not compatible, and the unmodelled methods *)
+  (* diagnostics: the (method, field) cells that are not compatible, the unmodelled methods, the extra fields that
+     are live without being well behaved, the model fields no struct field plays *)
   Definition fx_bad_cells : list (String.string * String.string) :=
     flat_map (fun o => flat_map (fun m => flat_map (fun f => if cell_compat o m f then [] else [(m, fname f)]) (fp_fields T))
                                 (methods o)) (fp_ops T) ++
-    flat_map (fun row => if known_method (fst row) || getter_ok row then [] else [(fst row, "(unmodelled method)"%string)]) gen.
+    flat_map (fun row => if known_method (fst row) || getter_ok row then [] else [(fst row, "(unmodelled method)"%string)]) gen ++
+    flat_map (fun e => if implb (live ext_table (inr e)) (wb ext_table (inr e)) then []
+                       else [("(extra field: its incoming value is read and it is not well behaved)"%string, e)]) extras ++
+    flat_map (fun n => if str_mem n gen_fields then [] else [("(model field played by no struct field)"%string, n)]) model_names.
 End Compat.
-Arguments fx_compat {field op}. Arguments fx_bad_cells {field op}.
+Arguments fx_compat {field op}. Arguments fx_bad_cells {field op}. Arguments ext_table {field op}. Arguments extras {field op}.
+Arguments extras_ok {field op}.
 
 (* hand-justified cells.  Parser: currentToken is stored only when the token slice is non-empty and is not consulted
    when it is empty (lemma cur_guarded; probes with empty / nil / EOF-less slices).  Tokenizer: Reset uses only cap() and
